@@ -69,7 +69,7 @@ func replayMain(propID, path string) int {
 		return 3
 	}
 	var inner struct {
-		Phase int `json:"phase"`
+		Phase int  `json:"phase"`
 		Idx   *int `json:"idx"`
 	}
 	json.Unmarshal(rep.Replay, &inner)
